@@ -19,6 +19,7 @@ namespace Spec
 inductive Expect (α : Type) where
   | value (v : α)
   | fails
+  | any          -- the specification makes no claim for this input
   deriving Repr
 
 section
@@ -32,6 +33,7 @@ def Fails (r : M (α × Slot)) (error : Slot) : Prop :=
 def Meets (r : M (α × Slot)) (error : Slot) : Expect α → Prop
   | .value v => Returns r v error
   | .fails => Fails r error
+  | .any => True
 
 end
 end Spec
